@@ -49,38 +49,52 @@ Definition enum_names_fixed (sv : sysvar) : bool :=
   end.
 
 Lemma registry_wellformed_vars :
-  (keys_unique vars && forallb name_ok vars && forallb (fun sv => bounds_ok (v_type sv)) vars
-   && forallb (fun sv => enum_ok (v_type sv)) vars && forallb enum_names_fixed vars)%bool = true.
-Proof. vm_compute. reflexivity. Qed.
+  keys_unique vars = true /\ forallb name_ok vars = true /\ forallb (fun sv => bounds_ok (v_type sv)) vars = true /\
+  forallb (fun sv => enum_ok (v_type sv)) vars = true /\ forallb enum_names_fixed vars = true.
+Proof.
+  split; [vm_compute; reflexivity|]. split; [vm_compute; reflexivity|]. split; [vm_compute; reflexivity|].
+  split; vm_compute; reflexivity.
+Qed.
 
 Theorem registry_wellformed :
   keys_unique vars = true /\
   forall sv, In sv vars -> name_ok sv = true /\ bounds_ok (v_type sv) = true /\ enum_ok (v_type sv) = true /\
                             enum_names_fixed sv = true.
 Proof.
-  pose proof registry_wellformed_vars as H.
-  repeat (apply andb_true_iff in H; destruct H as [H ?]).
-  split; auto. intros sv Hin. repeat split; eapply forallb_forall; eauto.
+  destruct registry_wellformed_vars as [H1 [H2 [H3 [H4 H5]]]].
+  split; [exact H1|]. intros sv Hin.
+  split; [exact (proj1 (forallb_forall _ _) H2 sv Hin)|].
+  split; [exact (proj1 (forallb_forall _ _) H3 sv Hin)|].
+  split; [exact (proj1 (forallb_forall _ _) H4 sv Hin)|exact (proj1 (forallb_forall _ _) H5 sv Hin)].
 Qed.
 
 (* ---------- witnesses of the defects the faithful model has ---------- *)
+Ltac with_var :=
+  match goal with
+  | |- context [lookup vars ?n] =>
+      let E := fresh "E" in
+      destruct (lookup vars n) as [sv|] eqn:E; [|vm_compute in E; discriminate]; exists sv
+  end.
+
 (* an unsigned variable accepts -1 as 2^64-1 *)
 Lemma uint_negative_accepted :
   exists sv, lookup vars "group_concat_max_len" = Some sv /\
     convert (v_type sv) (GI KInt8 (-1)) = Ok (GI KUint64 18446744073709551615).
-Proof. eexists. split; vm_compute; reflexivity. Qed.
+Proof. with_var. split; [reflexivity|]. vm_compute in E. inversion E; subst. vm_compute. reflexivity. Qed.
 
 (* a signed variable accepts 2^64-1 as -1 *)
 Lemma int_wraps_uint64 :
   exists sv, lookup vars "immediate_server_version" = Some sv /\
     convert (v_type sv) (GI KUint64 18446744073709551615) = Ok (GI KInt64 (-1)).
-Proof. eexists. split; vm_compute; reflexivity. Qed.
+Proof. with_var. split; [reflexivity|]. vm_compute in E. inversion E; subst. vm_compute. reflexivity. Qed.
 
 (* a decimal loses its sign / is rounded on the unsigned path *)
 Lemma uint_decimal_sign_dropped :
   exists sv, lookup vars "group_concat_max_len" = Some sv /\
     convert (v_type sv) (GD (-5) 1) = Ok (GI KUint64 5) /\ convert (v_type sv) (GD 9 2) = Ok (GI KUint64 5).
-Proof. eexists. repeat split; vm_compute; reflexivity. Qed.
+Proof.
+  with_var. split; [reflexivity|]. vm_compute in E. inversion E; subst. split; vm_compute; reflexivity.
+Qed.
 
 (* SET GLOBAL of a GLOBAL-only variable is not what the bare @@x of an existing session (even the one that issued
    it) returns *)
@@ -89,7 +103,11 @@ Lemma bare_read_of_global_only_stale :
   (exists sv, lookup vars "max_connections" = Some sv /\ v_scope sv = ScGlobal) /\
   get_global st "max_connections" = GI KInt64 200 /\
   read_bare st 0 "max_connections" = RVal (GI KInt64 151).
-Proof. cbv zeta. split; [eexists; split; vm_compute; reflexivity|]. split; vm_compute; reflexivity. Qed.
+Proof.
+  cbv zeta. split.
+  - with_var. split; [reflexivity|]. vm_compute in E. inversion E; subst. reflexivity.
+  - split; vm_compute; reflexivity.
+Qed.
 
 (* non-vacuity: a two-session history in which everything the theorems talk about happens *)
 Definition demo_ops : list op :=
